@@ -140,9 +140,14 @@ func scenarios(thorough bool) []scen {
 			[][]in{{{"maint", "ingest-drain:6", ""}}, {{"get", "a", ""}, {"get", "a", ""}}}, false},
 		{"compact:l0-base|get,get", base, []in{{"set", "a", "1"}, {"maint", "rf", ""}, {"maint", "l0-base", ""}, {"set", "a", "2"}, {"maint", "rf", ""}},
 			[][]in{{{"maint", "l0-base", ""}}, {{"get", "a", ""}, {"get", "a", ""}}}, false},
+		// two sealed (not yet flushed) memtables hold versions of the key while clients run
+		{"sealed2:set|get,get", base, []in{{"set", "a", "1"}, {"maint", "rotate", ""}, {"set", "a", "2"}, {"maint", "rotate", ""}},
+			[][]in{{{"set", "a", "3"}}, {{"get", "a", ""}, {"get", "a", ""}}}, false},
 	}
 	if thorough {
 		s = append(s,
+			scen{"sealed2-del:set|get,get", base, []in{{"set", "a", "1"}, {"maint", "rotate", ""}, {"del", "a", ""}, {"maint", "rotate", ""}},
+				[][]in{{{"set", "b", "1"}}, {{"get", "a", ""}, {"get", "a", ""}}}, false},
 			scen{"set,set|set|get", base, nil, [][]in{{{"set", "a", "1"}, {"set", "a", "2"}}, {{"set", "a", "3"}}, {{"get", "a", ""}}}, false},
 			scen{"set|del|get,get", base, []in{{"set", "a", "0"}}, [][]in{{{"set", "a", "1"}}, {{"del", "a", ""}}, {{"get", "a", ""}, {"get", "a", ""}}}, false},
 			scen{"compact:drain-into-main|get|set", base, []in{{"set", "a", "1"}, {"maint", "rf", ""}, {"maint", "l0-base", ""}, {"maint", "ingest-drain:6", ""}, {"set", "a", "2"}, {"maint", "rf", ""}, {"maint", "l0-base", ""}},
